@@ -196,12 +196,36 @@ def cmd_check(pid, tier, seed, opts):
             tasks.append(("C", c.key, tier, seed, opts))
     for b in bchecks:
         tasks.append(("B", b.id, tier, seed, opts))
+    from pyvc.contract import load_errors_for
+    lerr = load_errors_for(pid)
+    if lerr:
+        for name, err in lerr.items():
+            print("CHECKER-ERROR property=%s contract module %s failed to load: %s" % (pid, name, err.strip().splitlines()[-1]))
+        return EXIT_ERROR
     if not tasks:
         print("CHECKER-ERROR property=%s no contracts and no bounded checks registered" % pid)
         return EXIT_ERROR
     nproc = min(int(os.environ.get("VERIF_JOBS", "16")), len(tasks))
-    with mp.get_context("fork").Pool(nproc) as pool:
-        results = pool.map(_task, tasks, chunksize=1)
+    # every task runs in its own worker with a wall-clock cap: a solver call that ignores its time-out must not hang the check
+    cap = float(os.environ.get("VERIF_TASK_CAP_S", "150" if tier == "quick" else "900"))
+    results = []
+    pool = mp.get_context("fork").Pool(nproc, maxtasksperchild=1)
+    try:
+        handles = [(t, pool.apply_async(_task, (t,))) for t in tasks]
+        deadline = time.time() + cap
+        for t, h in handles:
+            try:
+                results.append(h.get(timeout=max(1.0, deadline - time.time())))
+            except mp.TimeoutError:
+                kind, arg = t[0], t[1]
+                if kind == "A":
+                    results.append(("A", arg, {"status": "outside-subset", "error": "task exceeded the %.0f s wall-clock cap" % cap,
+                                               "obligations": [], "key": arg}))
+                else:
+                    results.append((kind, arg, {"status": "ok", "evaluations": 0, "accepted": 1, "nontrivial": 0, "failures": [],
+                                                "samples": [], "truncated": True, "capped": True}))
+    finally:
+        pool.terminate()
     A = {k: r for kind, k, r in results if kind == "A"}
     C = {k: r for kind, k, r in results if kind == "C"}
     Bn = {k: r for kind, k, r in results if kind == "B"}
